@@ -514,3 +514,9 @@ def no_prenormalise(ctx):
                 if isinstance(v, ast.Call) and isinstance(v.func, ast.Attribute) and v.func.attr in FOLDING:
                     ctx.violate(q, 'parameter %s is re-bound to %s before validation' % (param, norm(v)), node,
                                 'padded / case-changed strings are silently repaired and accepted')
+
+
+from . import c05 as _c05
+PROP.obligation('C11.network-lookup', canaries=[
+    mut.replace_expr('networks', 'network_by_value', 'NETWORK_DEFINITIONS[nv][field] == value', 'NETWORK_DEFINITIONS[nv][field].upper() == value.upper()', 'human-readable parts matched case-insensitively', nth=0),
+])(_c05.network_by_value_exact)
